@@ -99,6 +99,7 @@ def replay_file(path):
         e0 = c["event"]
         if e0["k"] == "list":
             evs = sources.list_case("r", {"keys": e0["keys"], "prefixGiven": e0["prefixGiven"], "prefixKey": e0.get("prefixKey", 0), "size": e0["size"]})
+            evs = [e for e in evs if e.get("sfx") == e0.get("sfx", e.get("sfx"))]
         else:
             print("load case: see stored outcomes")
             evs = [e0]
